@@ -3,6 +3,13 @@ use crate::endpoint::Endpoint;
 use crate::error::*;
 use crate::transport::AcceptStopHandle;
 use crate::util::{Peer, PeerIdentity};
+
+/// One connection: its number (see `backend::next_conn`) and its two halves behind their own lock,
+/// so that the peer table is never locked while a send or a recv waits for the transport.
+struct ReqPeer {
+    conn: u64,
+    io: futures::lock::Mutex<Peer>,
+}
 use crate::*;
 use crate::{SocketType, ZmqResult};
 
@@ -14,7 +21,7 @@ use std::collections::HashMap;
 use std::sync::Arc;
 
 struct ReqSocketBackend {
-    pub(crate) peers: scc::HashMap<PeerIdentity, Peer>,
+    pub(crate) peers: scc::HashMap<PeerIdentity, Arc<ReqPeer>>,
     pub(crate) round_robin: crate::backend::Rotation,
     socket_monitor: Mutex<Option<mpsc::Sender<SocketEvent>>>,
     socket_options: SocketOptions,
@@ -22,7 +29,8 @@ struct ReqSocketBackend {
 
 pub struct ReqSocket {
     backend: Arc<ReqSocketBackend>,
-    current_request: Option<PeerIdentity>,
+    /// The peer that was sent the outstanding request, and on which connection
+    current_request: Option<(PeerIdentity, u64)>,
     binds: HashMap<Endpoint, AcceptStopHandle>,
 }
 
@@ -52,19 +60,26 @@ impl SocketSend for ReqSocket {
                     })
                 }
             };
-            if let Some(mut peer) = self.backend.peers.get_async(&next_peer_id).await {
+            let peer = self
+                .backend
+                .peers
+                .read_async(&next_peer_id, |_, peer| peer.clone())
+                .await;
+            if let Some(peer) = peer {
                 message.push_front(Bytes::new());
-                let sent = peer.send_queue.send(Message::Message(message)).await;
-                drop(peer);
+                let sent = peer
+                    .io
+                    .lock()
+                    .await
+                    .send_queue
+                    .send(Message::Message(message))
+                    .await;
                 if let Err(e) = sent {
-                    // Awaited, not `peer_disconnected`: a task registering another peer may have
-                    // queued for the bucket while the entry was held, and may need this thread.
-                    self.backend.peers.remove_async(&next_peer_id).await;
-                    self.backend.round_robin.leave(&next_peer_id);
+                    self.backend.forget_conn(&next_peer_id, peer.conn);
                     return Err(e.into());
                 }
                 self.backend.round_robin.served(&next_peer_id);
-                self.current_request = Some(next_peer_id);
+                self.current_request = Some((next_peer_id, peer.conn));
                 return Ok(());
             }
             self.backend.round_robin.leave(&next_peer_id);
@@ -78,15 +93,20 @@ impl SocketRecv for ReqSocket {
         // The request stays outstanding until a reply (or a failure) has actually been read: if this
         // future is dropped while it waits, the socket must still owe that recv.
         match self.current_request.clone() {
-            Some(peer_id) => {
-                if let Some(mut peer) = self.backend.peers.get_async(&peer_id).await {
-                    let received = peer.recv_queue.next().await;
-                    drop(peer);
+            Some((peer_id, conn)) => {
+                let peer = self
+                    .backend
+                    .peers
+                    .read_async(&peer_id, |_, peer| peer.clone())
+                    .await
+                    // (the reply comes on the connection the request went out on, or not at all)
+                    .filter(|peer| peer.conn == conn);
+                if let Some(peer) = peer {
+                    let received = peer.io.lock().await.recv_queue.next().await;
                     self.current_request = None;
                     if !matches!(received, Some(Ok(_))) {
-                        // The connection ended or failed: forget the peer (awaited, see `send`)
-                        self.backend.peers.remove_async(&peer_id).await;
-                        self.backend.round_robin.leave(&peer_id);
+                        // The connection ended or failed: forget it
+                        self.backend.forget_conn(&peer_id, conn);
                     }
                     match received {
                         Some(Ok(Message::Message(mut m))) => {
@@ -156,11 +176,14 @@ impl MultiPeerBackend for ReqSocketBackend {
         self.peers
             .upsert_async(
                 peer_id.clone(),
-                Peer {
-                    _identity: peer_id.clone(),
-                    send_queue,
-                    recv_queue,
-                },
+                Arc::new(ReqPeer {
+                    conn: crate::backend::next_conn(),
+                    io: futures::lock::Mutex::new(Peer {
+                        _identity: peer_id.clone(),
+                        send_queue,
+                        recv_queue,
+                    }),
+                }),
             )
             .await;
         self.round_robin.join(peer_id);
@@ -169,6 +192,19 @@ impl MultiPeerBackend for ReqSocketBackend {
     fn peer_disconnected(&self, peer_id: &PeerIdentity) {
         self.peers.remove_sync(peer_id);
         self.round_robin.leave(peer_id);
+    }
+}
+
+impl ReqSocketBackend {
+    /// Forgets connection `conn` of a peer, not a newer connection registered under its identity
+    fn forget_conn(&self, peer_id: &PeerIdentity, conn: u64) {
+        let forgotten = self
+            .peers
+            .remove_if_sync(peer_id, |peer| peer.conn == conn)
+            .is_some();
+        if forgotten {
+            self.round_robin.leave(peer_id);
+        }
     }
 }
 
